@@ -1402,9 +1402,28 @@ fn sig_lean(name: &str, s: &Sig) -> String {
 fn cmd_abi(out: &str, candidates: &[String]) -> Result<()> {
     let api = load_api()?;
     let prov = shopify_function_trampoline::PROVIDER_MODULE_NAME;
+    // "the tool accepts" = `apply` accepts, or the file-based entry point the CLI uses does (they must agree; a
+    // module only one of them lets through counts as accepted)
+    let out_dir = std::path::Path::new(out).parent().map(|p| p.to_path_buf()).unwrap_or_else(|| std::path::PathBuf::from("."));
+    let via_file = |wasm: &[u8]| -> Option<Vec<u8>> {
+        let (a, b) = (out_dir.join(format!("abi-probe-{}-in.wasm", std::process::id())), out_dir.join(format!("abi-probe-{}-out.wasm", std::process::id())));
+        std::fs::write(&a, wasm).ok()?;
+        let (a1, b1) = (a.clone(), b.clone());
+        let r = std::panic::catch_unwind(move || shopify_function_trampoline::trampoline_existing_module(&a1, &b1)).unwrap_or_else(|_| Err(anyhow!("PANIC")));
+        let bytes = if r.is_ok() { std::fs::read(&b).ok() } else { None };
+        let _ = std::fs::remove_file(&a);
+        let _ = std::fs::remove_file(&b);
+        bytes
+    };
     let run = |imports: &[(String, String, Sig)]| -> Result<Vec<(String, String, String, Sig)>> {
         let wasm = wat::parse_str(&probe_module(imports))?;
-        let outw = trampoline(&wasm)?;
+        let outw = match trampoline(&wasm) {
+            Ok(o) => o,
+            Err(e) => match via_file(&wasm) {
+                Some(o) => o,
+                None => return Err(e),
+            },
+        };
         wasmparser::validate(&outw).map_err(|e| anyhow!("output does not validate: {}", e))?;
         Ok(imports_of(&outw)?.0)
     };
